@@ -1,0 +1,11 @@
+//go:build verif
+
+package http
+
+import "net/http"
+
+// VerifHandler returns the server's request handler without a listener.
+func (s *Server) VerifHandler() http.Handler { return http.HandlerFunc(s.serveHTTP) }
+
+// VerifHandler returns the proxy's request handler without a listener.
+func (s *ProxyServer) VerifHandler() http.Handler { return http.HandlerFunc(s.serveHTTP) }
